@@ -357,6 +357,17 @@ func (r *vfRun) nodeLambda(prefix string, sc *vfScenario, name string) *Lambda {
 		if abort {
 			return nil, InterruptAndRerun
 		}
+		if fail != nil && fail.Kind == "cspanic" && sc.State {
+			// a state callback that panics (recovered by the node itself): the state lock must have been released
+			func() {
+				defer func() { _ = recover() }()
+				_ = ProcessState[*vfState](ctx, func(_ context.Context, st *vfState) error { panic("verif: panic inside a ProcessState callback") })
+			}()
+			_ = ProcessState[*vfState](ctx, func(_ context.Context, st *vfState) error {
+				r.cs(rc.rec, st, prefix, "body", name)
+				return nil
+			})
+		}
 		if rank, ok := sc.Delay[name]; ok && rank > 0 && sc.State && !abort {
 			// a slow node sits inside ProcessState for a while: handlers of faster siblings must wait for it
 			_ = ProcessState[*vfState](ctx, func(_ context.Context, st *vfState) error {
@@ -387,6 +398,8 @@ func (r *vfRun) nodeLambda(prefix string, sc *vfScenario, name string) *Lambda {
 				if rc.cancel != nil {
 					rc.cancel()
 				}
+			case "cspanic":
+				// handled above (the node itself goes on normally)
 			case "serr", "spanic":
 				// the body succeeds; its output stream carries an error item / a panicking convert (see below)
 			}
